@@ -282,6 +282,9 @@ class Run:
             self.samples.append(s)
 
     def obligation(self, name, ok, detail=''):
+        if not ok and sum(1 for o in self.obligations if o[0] == name and not o[1]) >= 3:
+            self.count('further failures of: ' + name)
+            return
         self.obligations.append((name, bool(ok), detail))
         if not ok:
             self.broken.append(name + ((': ' + detail) if detail else ''))
